@@ -92,7 +92,8 @@ def rule_commit_monotone(ctx, rule="R28a"):
         if b.path.startswith(CL[:-2] + "::<") or b.npath.startswith(CL):
             for bi, fld, val in R.self_writes(fa, b, depth=2):
                 if fld == "local.log_commit":
-                    okw = f == CL + "commit_storage" and val == "index"
+                    thin = fa.body(CL + "commit_storage")
+                    okw = f == CL + "commit_storage" and thin is not None and val == R.Sym(fa, thin).argname(2)
                     ctx.ob(rule, "local.log_commit<-%s" % f, okw,
                            "local.log_commit = index in commit_storage" if okw else
                            "`%s` writes local.log_commit = %s outside commit_storage" % (f, val), b.loc(bi))
@@ -116,7 +117,7 @@ def rule_commit_monotone(ctx, rule="R28a"):
 
 def rule_validated_first(ctx, rule="R28b"):
     fa = ctx.facts
-    for fn, extra in (("append_request", ()), ("heartbeat_request", ())):
+    for fn in ("append_request", "heartbeat_request"):
         b = anchor_code(ctx, rule, CL + fn)
         if not b:
             continue
@@ -142,6 +143,27 @@ def rule_validated_first(ctx, rule="R28b"):
                        "`%s` reaches %s without passing %s (%s): a request of a foreign cluster / an older term changes "
                        "this node's state or log" % (fn, eff, v, "validator is not called" if not sites else "path " + cfg.path_str(b, p or [])),
                        b.loc(blocks[0]), key="%s|%s|%s|%s-without-%s" % (ctx.pid, rule, CL + fn, eff, v))
+        if fn == "heartbeat_request":
+            # a heartbeat commits request.log_commit only on a follower whose last entry is the leader's last entry
+            sites, edges = R.validator_cut(b, "validate_log")
+            blocks = effects.get("commit_storage", [])
+            p = cfg.find_path(b, [0], blocks, removed_edges=edges) if sites and blocks else [0]
+            ok = bool(sites and edges and blocks) and p is None
+            ctx.ob(rule, "heartbeat_request:commit_storage<=validate_log", ok,
+                   "commit_storage reachable only through the Ok edge of validate_log?" if ok else
+                   "heartbeat_request commits request.log_commit without validate_log: a follower whose log differs from "
+                   "the leader's commits entries the leader never replicated to it", b.loc(blocks[0]) if blocks else b.where,
+                   key="%s|%s|%s|commit_storage-without-validate_log" % (ctx.pid, rule, CL + fn))
+            vl = ctx.anchor(rule, CL + "validate_log")
+            if vl:
+                okb, errb = R.ok_return_blocks(vl)
+                cm = R.cmp_edges(fa, vl)
+                for f_ in ("log_index", "log_term"):
+                    pe = R.edges_implying(cm, "local." + f_, "request." + f_, "==")
+                    pp = cfg.find_path(vl, [0], okb, removed_edges=[e for d, e in pe])
+                    ctx.ob(rule, "validate_log[%s]" % f_, bool(okb and pe) and pp is None,
+                           "Ok only on local.%s == request.%s" % (f_, f_) if okb and pe and pp is None else
+                           "validate_log can return Ok although local.%s != request.%s" % (f_, f_), vl.where)
         if fn == "append_request":
             vs = [(i, t) for i, t in cfg.calls(b) if common.norm(cfg.callee(t) or "") == CL + "validate_log_append"]
             edges = []
